@@ -26,22 +26,29 @@ def endAgree : VM.End → SLD.End → Prop
 /-- the state `runQuery` starts the search in -/
 def startM (prog : List Term) : MS := { user := initState prog none }
 
-theorem queryPromise_eq {fl : Bool} (prog : List Term) (query : Term) (max : Nat) (hb : bodyS fl query = true)
+theorem dbodyS_shift (fl : Bool) (k : Nat) (b : Term) : dbodyS fl (SLD.shift k b) = dbodyS fl b := by
+  rw [shift_eq_rename, dbodyS_rename]
+
+theorem queryPromise_eq {fl : Bool} (prog : List Term) (query : Term) (max : Nat) (hb : dbodyS fl query = true)
     (hw : wfT query = true) (hnv : ∀ v, query ≠ .var v) :
+    ∃ cs, Forall2 (fun cl dj => CRel fl cl (qHead (SLD.shift 10 query)) dj) cs (SLD.disjuncts (SLD.shift 10 query)) ∧
     queryPromise prog (SLD.shift 10 query) max none =
-      (({ id := 1, delayed := [Thunk.clause (clauseOf (qClause (SLD.shift 10 query)))
-          (argList (qHead (SLD.shift 10 query))) (.collect (SLD.shift 10 query) max) [] 1] } : Pr),
+      (({ id := 1, delayed := cs.map (fun cl => Thunk.clause cl
+          (argList (qHead (SLD.shift 10 query))) (.collect (SLD.shift 10 query) max) [] 1) } : Pr),
        { startM prog with user := { (startM prog).user with nextId := 2 } }) := by
   unfold queryPromise
-  have hb' : bodyS fl (SLD.shift 10 query) = true := by rw [bodyS_shift]; exact hb
+  have hb' : dbodyS fl (SLD.shift 10 query) = true := by rw [dbodyS_shift]; exact hb
   have hw' : wfT (SLD.shift 10 query) = true := by rw [shift_eq_rename, wfT_rename]; exact hw
   have hnv' : ∀ v, SLD.shift 10 query ≠ .var v := by
     intro v hv
     cases query with
     | var w => exact hnv w rfl
     | _ => simp [SLD.shift] at hv
-  rw [callGoal_query _ _ _ hb' hw' hnv']
-  simp only [clausesCall, freshId, List.map_cons, List.map_nil, startM, initState_nextId]
+  obtain ⟨cs, hrel, hcg⟩ := callGoal_queryM (fl := fl) (SLD.shift 10 query) (.collect (SLD.shift 10 query) max)
+    { user := initState prog none } hb' hw' hnv'
+  refine ⟨cs, hrel, ?_⟩
+  rw [hcg]
+  simp only [clausesCall, freshId, startM, initState_nextId]
 
 /-- the side condition on the run of the VM (`fl = true`, i.e. control constructs in the fragment; it
     is empty for `fl = false`): in every thunk evaluation of the search that ends in `call(G)`, the
@@ -68,16 +75,15 @@ theorem vm_query {fl : Bool} (prog : List Term) (query : Term) (max : Nat) (hfra
       (queryPromise prog (SLD.shift 10 query) max none).2)
     (n : Nat) (r1 : SLD.Res)
     (hs : SLD.solveAlts false (progS prog) n 0 (SLD.maxVar query)
-      [.frames (SLD.bodyFrames false query 0)] [] query max = some r1) :
+      ((SLD.disjuncts query).map (fun x => .frames (SLD.bodyFrames false x 0))) [] query max = some r1) :
     sig = .illScoped ∨
       (Forall2 (AnsRel (SLD.shift 10 query)) m'.user.answers.reverse r1.answers ∧
         endAgree (endOf (ForceDFSG.toRes sig)) (sldEnd r1.stop)) := by
   obtain ⟨hprog, hb, hw, hqnv, hsmall⟩ := hfrag
   let query' := SLD.shift 10 query
   let B := SLD.maxVar query
-  have hb' : bodyS fl query' = true := by show bodyS fl (SLD.shift 10 query) = true; rw [bodyS_shift]; exact hb
-  have hw' : wfT query' = true := by show wfT (SLD.shift 10 query) = true; rw [shift_eq_rename, wfT_rename]; exact hw
-  rw [queryPromise_eq prog query max hb hw hqnv] at hd hgood
+  obtain ⟨cs, hrel, hqp⟩ := queryPromise_eq prog query max hb hw hqnv
+  rw [hqp] at hd hgood
   obtain ⟨hnv0, hans0⟩ := initState_nextVar prog
   have hqv : ∀ v, query'.hasVar v = true → 10 ≤ v ∧ v - 10 < B := fun v hv => qvar_bounds query hv
   have hsim0 : SimW query' 1000000 [] (fun v => .var v) (· - 10) (fun v => query'.hasVar v = true) B := by
@@ -99,18 +105,22 @@ theorem vm_query {fl : Bool} (prog : List Term) (query : Term) (max : Nat) (hfra
     (fun _ h => by cases h), (fun _ h => by cases h)⟩
   have hgv0 : ∀ v, query'.hasVar v = true → RV (fun v => Term.var v) (fun v => query'.hasVar v = true) v :=
     fun v hv => ⟨v, hv, by simp [Term.hasVar]⟩
-  obtain ⟨hW2, hgD2, hitem⟩ := call_item (fl := fl) (d := 0) hsim0 hb' hw' hgv0
+  obtain ⟨hW2, hgD2, its, hits1, hits2, hitsR⟩ := call_items (fl := fl) 0 hsim0 hgv0 hrel
   have hqr : query'.rename (· - 10) = query := unshift 10 query
-  rw [hqr] at hitem
+  rw [hqr] at hits2
   have hspec : PSpec fl none query' max prog [] 0
-      ({ id := 1, delayed := [Thunk.clause (clauseOf (qClause query')) (argList (qHead query'))
-          (.collect query' max) [] 1] } : Pr)
+      ({ id := 1, delayed := cs.map (fun cl => Thunk.clause cl (argList (qHead query'))
+          (.collect query' max) [] 1) } : Pr)
       { startM prog with user := { (startM prog).user with nextId := 2 } } [] r1 := by
-    refine .alts (its := [(clauseOf (qClause query'), qClause query', some (.frames (SLD.bodyFrames false query 0)))])
-      (g := qHead query') (K := .collect query' max) (env := []) (R := []) (q := query) (nv := B) (n := n)
-      hans0 (by decide) (qHead_shape query') ?_ (by simpa using hs)
-    refine ⟨1000000, fun v => .var v, (· - 10), _, [], Nat.le_of_eq hnv0.symm,
-      hW2, .collect rfl, .nil rfl, CutsOK.nil _, hq, hgD2, .cons hitem .nil⟩
+    have := PSpec.alts (fl := fl) (mo := none) (tmpl := query') (max := max) (prog := prog) (lv := []) (its := its)
+      (m := { startM prog with user := { (startM prog).user with nextId := 2 } })
+      (g := qHead query') (K := .collect query' max) (env := []) (R := []) (q := query) (nv := B) (n := n) (d := 0)
+      (id := 1) (r := r1)
+      hans0 (by decide) (qHead_shape query')
+      ⟨1000000, fun v => .var v, (· - 10), _, [], Nat.le_of_eq hnv0.symm,
+        hW2, .collect rfl, .nil rfl, CutsOK.nil _, hq, hgD2, hitsR⟩ (by rw [hits2]; simpa using hs)
+    rw [← hits1]
+    simpa [List.map_map, Function.comp_def] using this
   rcases tp_all (tmpl := query') (max := max) (prog := prog) hprog F none k _ [] _ sig m' hd hgood 0 [] r1 hspec.toW hok0
       ⟨rfl, by show 0 < 2; omega, initState_cancelAt prog⟩ hmax with hill | hm
   · exact Or.inl hill
